@@ -24,7 +24,7 @@ def run(pid, tier, seed):
     for c in config.CHECKS[pid].get("cases", []):
         cmd = [REPLAY_BIN, c["case"]]
         out["cmds"].append(" ".join(cmd))
-        name = f"{pid.lower()}::case_{c['case']} (single replayed input)"
+        name = f"{pid.lower()}::case_{c['case']} ({c.get('label', 'single replayed input')})"
         try:
             p = subprocess.run(cmd, capture_output=True, text=True, timeout=300, env=env)
         except subprocess.TimeoutExpired:
@@ -42,12 +42,12 @@ def run(pid, tier, seed):
             # no record at all: the process died (an abort is exactly what these cases look for)
             rec = {"case": c["case"], "input": c["what"], "observed": f"the process aborted (exit status {p.returncode}): " + (p.stderr.strip().split("\n")[-1][:200] if p.stderr.strip() else ""), "expected": "a returned value or error", "holds": False}
         ok = rec.get("holds") is True
-        out["bounded_items"].append({"harness": "case::" + c["case"], "bound": "one concrete input: " + c["what"], "status": "no counterexample" if ok else "failed", "what": c["what"]})
+        out["bounded_items"].append({"harness": "case::" + c["case"], "bound": (c.get("label") or "one concrete input") + ": " + c["what"], "status": "no counterexample" if ok else "failed", "what": c["what"]})
         if not ok:
             out["violations"].append({"obligation": name, "kind": "replayed input fails on the real code", "where": c.get("where", ""), "code": "", "verifier_output": "",
                                       "counterexample": rec, "item": None, "unit": "cases", "bounded": True})
         else:
             out["samples"].append(rec.get("input", "")[:200])
     out["solver_s"]["native-exec"] = time.time() - t0
-    out["trusted"].append("replay/src/main.rs cases d3 / d4 / d6 (inputs and expected outcomes written from the property text); rustc codegen")
+    out["trusted"].append("replay/src/main.rs cases d3 / d4 / d6 / jsonmut (inputs and expected outcomes written from the property text); rustc codegen")
     return out
